@@ -1,7 +1,9 @@
 """C18 - output is a deterministic function of the input (process, hash seed, in-process history)."""
 import json, os, random, subprocess
 from concurrent.futures import ThreadPoolExecutor
-import pi2v, funcs, mmgen, exprs
+import pi2v
+from pi2v import py_run
+import funcs, mmgen, exprs
 from pi2v import run_tlc, tlc_must_be_clean, workdir, write_ndjson, MachineryError
 
 CFG = """SPECIFICATION Spec
@@ -30,6 +32,21 @@ def pool(rng, quick):
     app_ = lambda a, b: pi2v.NINST(D, [(0, a), (1, b)])
     sub = {'lib': False, 'notations': [['nA', 2, D, 'A({0}, {1})'], ['nB', 2, D, 'B({0}; {1})'], ['nC', 2, D, 'C<{0}|{1}>']], 'axioms': [app_(pi2v.SYM(0), pi2v.SYM(1))]}
     p.append({'kind': 'recipe', 'module': {'lib': False, 'imports': [sub], 'axioms': [app_(pi2v.SYM(1), pi2v.SYM(0))], 'proofs': [['axiom', 0]]}, 'opt': False, 'fmt': 'pretty'})
+    # a notation that ignores one of its parameters (the sort of kore-and) as a top-level plug, in both formats: the schedules
+    # serialise the same module object again (the worker keeps one object per module)
+    ka = py_run([{'fn': 'apply_notation', 'label': 'kore-and', 'args': [pi2v.SYM(7), pi2v.MV(0), pi2v.SYM(8)]}])[0]['res']
+    km = {'lib': True, 'proofs': [['lemma', 'imp_refl', [{'pattern': ka}]], ['dyn', ['prop2'], [[1, ka], [0, pi2v.SYM(8)]]]]}
+    for fmt, opt in (('binary', False), ('pretty', False), ('binary', True)):
+        p.append({'kind': 'recipe', 'module': km, 'opt': opt, 'fmt': fmt})
+    # symbol-bearing nested patterns with equal memoisation scores (the optimiser's tie-breaking must not follow hash order)
+    A_, I_ = pi2v.APP, pi2v.IMP
+    for (x, y) in ((pi2v.SYM(11), pi2v.SYM(12)), (pi2v.SYM(21), pi2v.SYM(5))):
+        t0 = A_(I_(x, y), x)
+        p.append({'kind': 'recipe', 'module': {'lib': True, 'axioms': [I_(t0, x), I_(x, y)],
+                                               'proofs': [['lemma', 'imp_transitivity', [{'thunk': ['axiom', 0]}, {'thunk': ['axiom', 1]}]]]}, 'opt': True, 'fmt': 'binary'})
+    t1 = A_(A_(pi2v.SYM(3), I_(pi2v.SYM(4), pi2v.SYM(3))), I_(pi2v.SYM(4), pi2v.SYM(3)))
+    p.append({'kind': 'recipe', 'module': {'lib': True, 'axioms': [I_(t1, pi2v.SYM(4)), I_(pi2v.SYM(4), t1), I_(I_(pi2v.SYM(4), pi2v.SYM(3)), t1)],
+                                           'proofs': [['lemma', 'imp_transitivity', [{'thunk': ['axiom', 0]}, {'thunk': ['axiom', 1]}]], ['axiom', 2]]}, 'opt': True, 'fmt': 'binary'})
     # Metamath databases whose target has two or three metavariables
     k = 0
     while k < (2 if quick else 5):
@@ -47,7 +64,7 @@ def run(v, tier):
     v.assumptions += ['hash seeds are sampled (the seed is an uninterpreted parameter of the model): 0, 1, 2, VERIF_SEED-derived',
                       'outputs are compared through SHA-256 digests of the three files (strings in TLC)']
     P = pool(rng, quick)
-    seeds = ['0', '1', '2', str(1000 + pi2v.SEED)][:3 if quick else 4]
+    seeds = ['0', '1', '2', '6', '7', str(1000 + pi2v.SEED)][:5 if quick else 6]
     hmax = 2 if quick else 3
     # (B) TLC enumerates the schedules
     wd = workdir('c18-sched')
@@ -60,7 +77,7 @@ def run(v, tier):
         if line.startswith('"SCHED '):
             scheds.append(json.loads(json.loads(line)[6:]))
     full = [s for s in scheds if len(s['inputs']) == hmax] + [s for s in scheds if len(s['inputs']) == 1]
-    if len(full) > (90 if quick else 3000):
+    if len(full) > (220 if quick else 3000):
         full = rng.sample(full, 90 if quick else 3000)
     v.cov['schedules_enumerated_by_tlc'] = len(scheds)
     v.cov['schedules_realised'] = len(full)
